@@ -330,3 +330,45 @@ Proof.
     - destruct (t_done t || cc); inversion E; subst; simpl; exact C. }
   unfold usable. rewrite G by reflexivity. reflexivity.
 Qed.
+
+(* ---- an ended transaction leaves the store's mutex alone ----
+   After releaseOnce has fired, the mutex may be held by the NEXT transaction (t_locked is then that one's lock).
+   Whatever is called on the ended transaction -- Commit and Abort again, Gets, Sets, with any handlers -- neither the
+   mutex, nor the store, nor the fatal-error flag changes. *)
+Lemma released_step_keeps_the_mutex t c : t_released t = true -> t_done t = true ->
+  let t' := fst (fst (tstep MemTxn t c)) in
+  t_locked t' = t_locked t /\ t_store t' = t_store t /\ t_crashed t' = t_crashed t /\
+  t_released t' = true /\ t_done t' = true.
+Proof.
+  intros R D. destruct c as [k h|k v h| |cc]; cbn [tstep]; rewrite ?D; cbn [fst]; unfold release; rewrite ?R;
+    unfold push; cbn; repeat split; auto.
+Qed.
+
+Theorem ended_transaction_leaves_the_mutex_alone t cs : t_released t = true -> t_done t = true ->
+  let t' := fst (trun MemTxn t cs) in
+  t_locked t' = t_locked t /\ t_store t' = t_store t /\ t_crashed t' = t_crashed t.
+Proof.
+  revert t. induction cs as [|c rest IH]; intros t R D; cbn [trun].
+  - cbn. auto.
+  - pose proof (released_step_keeps_the_mutex t c R D) as H.
+    destruct (tstep MemTxn t c) as [[t1 r] id]. cbn [fst] in H. destruct H as (L & S & C & R1 & D1).
+    specialize (IH t1 R1 D1). destruct (trun MemTxn t1 rest) as [t2 out]. cbn [fst] in *.
+    destruct IH as (L2 & S2 & C2). repeat split; congruence.
+Qed.
+
+(* every way of ending puts the transaction into that state *)
+Lemma ended_is_released_and_done s0 cs : existsb ends cs = true ->
+  let t := fst (trun MemTxn (t_begin s0) cs) in t_crashed t = false -> t_released t = true /\ t_done t = true.
+Proof.
+  intros E t C. pose proof (mem_store_released s0 cs E) as U. unfold usable in U. fold t in U.
+  assert (D : dinv t).
+  { unfold t. assert (G : forall cs t0, dinv t0 -> dinv (fst (trun MemTxn t0 cs))).
+    { clear. induction cs as [|c rest IH]; intros t0 H; cbn [trun]; [exact H|].
+      pose proof (tstep_dinv t0 c H) as H1. destruct (tstep MemTxn t0 c) as [[t1 r] id]. cbn [fst] in H1.
+      specialize (IH t1 H1). destruct (trun MemTxn t1 rest) as [t2 out]. exact IH. }
+    apply G. reflexivity. }
+  destruct (trun_rinv (t_begin s0) cs (rinv_begin s0)) as (_ & L & _). fold t in L.
+  destruct (t_released t) eqn:R.
+  - split; [reflexivity|]. unfold dinv in D. congruence.
+  - specialize (L eq_refl). rewrite L, C in U. discriminate.
+Qed.
